@@ -29,8 +29,7 @@ Fixpoint mj_pkids (l : list lnode) : list dtree :=
 
 Lemma mj_ptree_dir nm dl kids : mj_ptree (LDir nm dl kids) = Node nm (ceiling_div dl BS) (mj_pkids kids).
 Proof.
-  cbn [mj_ptree]. f_equal. induction kids as [|c r IH]; [reflexivity|].
-  cbn [mj_pkids]. destruct c; rewrite <- IH; reflexivity.
+  cbn [mj_ptree]. f_equal.
 Qed.
 
 Lemma mj_tname_dtree n : tname (mj_dtree n) = lname n.
@@ -76,11 +75,11 @@ Lemma mj_go_sim : forall f q idx cur q' f' idx', mj_qrel q q' ->
 Proof.
   induction f as [|f IH]; intros q idx cur q' f' idx' Hrel Hf Hf'.
   - destruct Hrel as [|nm pn pos path q q' Hr|n pn pos path pn' pos' q q' Hd Hok Hr].
-    + rewrite mj_go_nil. split; reflexivity.
+    + rewrite !mj_go_nil. split; reflexivity.
     + exfalso. rewrite qsize_cons in Hf. lia.
     + exfalso. rewrite qsize_cons' in Hf. cbn [fst] in Hf. pose proof (tsize_pos (mj_dtree n)). lia.
   - destruct Hrel as [|nm pn pos path q q' Hr|n pn pos path pn' pos' q q' Hd Hok Hr].
-    + rewrite mj_go_nil. split; reflexivity.
+    + rewrite !mj_go_nil. split; reflexivity.
     + cbn [go]. unfold child_items. cbn [child_items_from]. rewrite app_nil_r, Z.add_0_r.
       cbn [fst snd filter]. unfold mj_big at 1. cbn [d_blocks]. change (0 <? 0) with false. cbv iota.
       apply IH; [exact Hr| |exact Hf']. rewrite qsize_cons in Hf. cbn [map list_sum] in Hf. lia.
@@ -149,7 +148,7 @@ Lemma mj_positions_walk start t : mj_tree_ok t = true ->
   mj_dir_positions t = map d_pos (filter mj_big (bfs start (mj_dtree t))).
 Proof.
   intros Hok. unfold mj_dir_positions. rewrite (write_order_is_bfs start), mj_filter_map.
-  f_equal. apply mj_filter_ext. intros r Hr. apply mj_walk_is_dir; assumption.
+  f_equal. apply mj_filter_ext. intros r Hr. apply (mj_walk_is_dir start); assumption.
 Qed.
 
 (* ---- d_path is the list of identifiers along the position ----------------------------------------------- *)
@@ -216,7 +215,8 @@ Proof.
   - intros nm i st H. discriminate.
   - intros nm dl kids IH _. rewrite mj_ptree_dir, AccountLinksLemmas.ltotal_dir. cbn [tree_ptr_size].
     unfold AccountLinks.lw_ptr at 1. f_equal. apply mj_pkids_size.
-    + eapply Forall_impl; [|exact IH]. intros c Hc. destruct (AccountLinks.l_is_dir c); [apply Hc|]; reflexivity.
+    + eapply Forall_impl; [|exact IH]. intros c Hc. cbv beta in *.
+      destruct (AccountLinks.l_is_dir c) eqn:E; [apply Hc; first [exact E|reflexivity]|reflexivity].
     + intros c _ Hc. destruct c; [reflexivity|discriminate].
 Qed.
 
